@@ -65,11 +65,14 @@ def gen_history(rng, names, stable, hp, maxops=12):
                 pair = rng.choice([({"n": k}, {"s": k}), ({"s": k}, {"n": k}), ({"n": k}, {"i": N.expected_id(el, int(a_), st_)}),
                                    ({"s": k}, {"s": rng.choice(N.spell_forms(el, int(a_), st_))}), ({"n": k}, {"s": rng.choice(N.spell_forms(el, int(a_), st_))})])
                 forced = pair[0] if pos == 0 else pair[1]
+            canon = k
             key = forced if forced is not None else spelling(rng, k) if rng.random() < 0.95 else rng.choice([{"o": "float"}, {"o": "none"}, {"s": "Xx-1"}, {"s": "99"}, {"i": 862220010}])
             ident = json.dumps(key, sort_keys=True)      # Python dict keys: equal objects collapse before the library sees them
             if ident in seen:
                 continue
             seen.add(ident)
+            if set(key) & {"s", "i", "n"} and key.get("s") not in ("Xx-1", "99") and key.get("i") != 862220010:
+                key = dict(key, c=canon)          # the nuclide this key denotes (for the predicate only; the library never sees it)
             out.append([key, gen_amount(rng, hp)])
         return out
 
@@ -221,6 +224,45 @@ def predicate(h, rec):
             bad.append("constructor raised TypeError for string/int/Nuclide keys")
         return bad
     obs = [init] + rec["steps"]
+
+    def val(a):
+        from fractions import Fraction
+        if "i" in a: return Fraction(a["i"])
+        if "q" in a: return Fraction(int(a["q"][0]), int(a["q"][1]))
+        if "f" in a:
+            x = float.fromhex(a["f"])
+            return Fraction(x) if x == x and abs(x) != float("inf") else None
+        return None
+
+    def stored(ob, name):
+        from fractions import Fraction
+        for c in ob["contents"]:
+            if c[0] == name:
+                try:
+                    return Fraction(c[1]) if "/" in str(c[1]) or str(c[1]).lstrip("-").isdigit() else Fraction(float.fromhex(c[1])) if str(c[1]).startswith(("0x", "-0x")) else Fraction(float(c[1]))
+                except Exception:
+                    return None
+        return Fraction(0)
+    # no supplied amount is silently discarded: one nuclide under two spellings in one input is refused, or both amounts count
+    srcs = [(0, "constructor", h["raw"], h["units"], +1)] + [(j + 1, op[0], op[1], op[2], -1 if op[0] == "subtract" else +1)
+                                                             for j, op in enumerate(h["ops"]) if op[0] in ("add", "subtract")]
+    for pos, what, raw_, unit_, sign in srcs:
+        if pos >= len(obs) or obs[pos].get("exc") is not None:
+            continue
+        cn = [k.get("c") for k, _ in raw_]
+        if None in cn or len(set(cn)) == len(cn):
+            continue
+        dupname = next(x for x in cn if cn.count(x) > 1)
+        amts = [val(a) for k, a in raw_ if k.get("c") == dupname]
+        ok = False
+        if unit_ == "num" and None not in amts:
+            before = stored(obs[pos - 1], dupname) if pos > 0 else 0
+            after = stored(obs[pos], dupname)
+            if before is not None and after is not None:
+                want = before + sign * sum(amts)
+                ok = abs(after - want) <= abs(want) / 10**12
+        if not ok:
+            bad.append(f"{what}: {dupname} was supplied twice (two spellings) and accepted, but the two amounts are not both accounted for")
     for i, ob in enumerate(obs):
         where = "constructor" if i == 0 else f"step {i} {h['ops'][i - 1][0]}"
         if ob["cls"] != h["cls"]:
